@@ -61,6 +61,9 @@ def gen_tree(rng, scratch: str) -> typing.Tuple[Tree, typing.List[bytes], typing
     t.file(pre + b".cap/meta-one.txt", "Abstract=cap abstract\n")
     t.file(b"mapped-dir/gophermap", "Hello from a gophermap\n0A file\tfile.txt\n1Remote\t/x\thost.example\t70\n")
     t.file(b"mapped-dir/file.txt", "mapped\n")
+    t.dir(b"empty-dir")                       # explicit directory members without anything below them
+    t.dir(b"holder/empty-inside")
+    t.symlink(b"links-dir/to-empty", b"../empty-dir")
     t.file(b"dotted-dir/.hidden-file", "hidden\n")
     t.file(b"dotted-dir/visible.txt", "v\n")
     # symlink members (relative, to directory, absolute-in-archive, dangling, cyclic)
